@@ -171,6 +171,40 @@ CHECKS.update({
     ),
 })
 
+CHECKS.update({
+    "C04": (
+        "Hypothesis-generated reactions with complete helicity sets x generated events x generated rotations;"
+        " metamorphic relation I(kin(R p)) = I(kin(p)) evaluated through lambdified kinematics and intensity",
+        "Single-topology reactions with any alignment, multi-topology reactions with spinless final state or with an"
+        " alignment; 8 events per case rotated by drawn Euler angles (incl. axis rotations and pi) with random complex"
+        " couplings and optional Breit-Wigner dynamics; the statement's premise (every projection of every outer state"
+        " present) is checked per case.",
+        "Trusts the numpy event generator and rotation; configurations covered by the open findings F4/F4b/F4c are"
+        " counted and excluded by structural predicates (vp/checks/c04.py), everything else is asserted.",
+        "DESIGN.md §4 C04",
+    ),
+    "C05": (
+        "Hypothesis-generated single-topology reactions; differential comparison of the unaligned model with the"
+        " axis-angle / DPD(1,2,3) model on the same events and couplings; exhaustive create_spin_range enumeration",
+        "One aligned model per case is formulated and evaluated next to the unaligned model of the same reaction on 8"
+        " generated events; formulation must succeed for every generated spin/mass incl. massless spin 1/2;"
+        " create_spin_range is enumerated for all spins 0..5 x no_zero_spin as fixed cases.",
+        "Equality is asserted only under the statement's premise (complete helicity sets); a massless particle below a"
+        " resonance under axis-angle is labelled undefined_by_construction.",
+        "DESIGN.md §4 C05",
+    ),
+    "C06": (
+        "Hypothesis RuleBasedStateMachine over (configure | assign dynamics | permute topologies | formulate) histories"
+        " on three builders; oracle = digest of the same (reaction, configuration) formulated in a forked fresh process"
+        " image under 4 PYTHONHASHSEED values",
+        "History invariant after every formulate: identical digest (all six attributes incl. dictionary order) when"
+        " formulated twice and when formulated from scratch in a fresh process under hash seeds 0, 1, 4242, random.",
+        "Fresh process = fork of a process that only imported ampform (vp/forkserver.py). Hash seeds are sampled at four"
+        " values; thread interleavings are not generated (builders are driven from one thread, interleaved by rules).",
+        "DESIGN.md §4 C06",
+    ),
+})
+
 NOT_CLAIMED: dict[str, str] = {}
 DEFAULT_REASON = "check not built yet in this round (planned: DESIGN.md §4); no verdict is claimed"
 
